@@ -11,6 +11,8 @@ VARIABLE l
 HexDigit(n) == IF n < 10 THEN 48 + n ELSE 87 + n
 Hex(b) == Flat([i \in 1..Len(b) |-> <<HexDigit(b[i] \div 16), HexDigit(b[i] % 16)>>])
 HasSchema(ty) == ty \in DOMAIN Schema
+\* C03 speaks about a transaction and its parts: block-level types are decoded and round-tripped (C01, C02) but not held to the Conway CDDL
+TxPart(ty) == ty \notin {"header_body", "header", "block", "operational_cert", "vrf_cert"}
 InClass(b) == LET it == Parse(b) IN IF IsErr(it) THEN it.why ELSE "well-formed"
 TextJudge(e) == IF Has(e.r, "panic") THEN Fail("C02", "Parse/" \o e.entry \o "/panic", e.sc, [why |-> e.r.panic, input |-> e.s])
                 ELSE IF Has(e, "valid") /\ e.valid /\ ~Has(e.r, "ok") THEN Emit([t |-> "TOOLFAIL", what |-> "a valid text form was refused: " \o e.entry, sc |-> e.sc])
@@ -40,7 +42,8 @@ Judge(e) ==
              ELSE /\ Chk(r.hex.to_hex = Hex(b), "C01", "Hex/" \o ty \o "/to_hex-differs-from-bytes", sc, [bytes |-> b])
                   /\ Chk(Has(r.hex.from_hex, "ok") /\ Has(r.hex.from_hex.to_bytes, "ok") /\ r.hex.from_hex.to_bytes.b = b, "C01", "Hex/" \o ty \o "/from_hex-differs-from-from_bytes", sc, [bytes |-> b])
           \* C03: the emitted bytes of a value decoded from a schema instance conform to the write profile
-          /\ (gen /\ HasSchema(ty) /\ ~IsErr(it) =>
+          /\ (gen /\ HasSchema(ty) /\ TxPart(ty) /\ IsErr(it) => Fail("C03", "Emit/" \o ty \o "/malformed", sc, [bytes |-> b, why |-> it.why]))
+          /\ (gen /\ HasSchema(ty) /\ TxPart(ty) /\ ~IsErr(it) =>
                 LET c == Conforms(Schema, ty, it, "write") IN
                 /\ Obl("C03", sc, <<ty, it.mt, Len(it.kids)>>)
                 /\ IF c = OK THEN TRUE ELSE Fail("C03", "Emit/" \o ty \o "/" \o c[Len(c)], sc, [bytes |-> b]))
@@ -67,7 +70,7 @@ Judge(e) ==
                                   [] why = "map-not-ascending" ->
                                        \* the library's equality of insertion-ordered maps is order-sensitive: only the content is demanded
                                        /\ Chk(~IsErr(oit) /\ SameContent(it, oit), "C17", "Json/" \o ty \o "/content-differs-after-json-roundtrip", sc, [bytes |-> b, out |-> ob])
-                                  [] why \in {"bignum-form", "constr-general-form", "redeemers-array-form", "output-map-form"} ->
+                                  [] why \in {"bignum-form", "constr-general-form", "redeemers-array-form", "output-map-form", "header-nested-form"} ->
                                        \* retained encoding detail: the JSON form does not carry it; the content must be equal, the bytes are those of a fresh value
                                        /\ Chk(f.eq, "C17", "Json/" \o ty \o "/value-read-back-not-equal/" \o why, sc, [bytes |-> b])
                                        /\ Chk(~IsErr(oit) /\ Conforms(Schema, ty, oit, "fresh") = OK, "C17", "Json/" \o ty \o "/bytes-after-json-not-in-fresh-form/" \o why, sc, [bytes |-> b, out |-> ob])
